@@ -326,7 +326,9 @@ KINDS = ['plain', 'renamed', 'split', 'changed']
 def _cubes(tier, seed, fmts=None):
     out = []
     for k in (KINDS if tier == 'quick' else KINDS + ['all']):
-        small = tier == 'quick'
+        # the full value-form menu with all default sets together exceeds
+        # the cube budget: 'all' uses the small menu
+        small = tier == 'quick' or k == 'all'
         if fmts:
             for f in fmts:
                 out.append({'kind': k, 'fmt': f, 'small': small})
